@@ -227,6 +227,13 @@ def run_case(case):
             elif not (pb <= t1 and t0 <= pa and pb <= pa):
                 out.append((f'C16:{fn}:validity-window', f'validity {nb.decode()}..{na.decode()} does not contain the time of issuance '
                                                          f'{fmt_epoch(t0).decode()} (UTC)'))
+            elif fn == 'self_sign':
+                # what self_sign asks new_cert for: valid until the same instant twenty years on (a leap day more or less)
+                y, rest = time.gmtime(t0)[0], time.gmtime(t0)[1:6]
+                want = [calendar.timegm((y + 20, rest[0], min(rest[1], 28) if rest[0] == 2 else rest[1]) + tuple(rest[2:]) + (0, 0, 0))]
+                if not (want[0] - 2 * 86400 <= pa <= want[0] + 2 * 86400 + (t1 - t0)):
+                    out.append(('C16:self_sign:validity-not-twenty-years', f'self-signed at {fmt_epoch(t0).decode()}: NotAfter {na.decode()} is not '
+                                                                           f'that instant twenty years on ({fmt_epoch(want[0]).decode()})'))
     # post_signature / post_key_locator
     sp = case['signer']
     if si is None or w['sigvalue'] is None:
@@ -307,6 +314,11 @@ def gen_key_name(rng):
     ident = [P.enc_tlv(8, rng.choice([b'ndn', b'edu', b'ucla', b'alice', b'\xc3\xa9', b'a b', b'site-1']))
              for _ in range(rng.randint(0, 3))]
     kid = rng.choice([P.enc_tlv(8, rng.randbytes(8)), P.enc_tlv(8, b'%01'), P.enc_tlv(8, b'k1'), P.enc_tlv(8, b'')])
+    if rng.random() < 0.2:
+        # an identity that itself looks like a key or certificate name (/site/KEY/backup, /org/KEY/k/self/v=1): still an identity
+        ident = ident[:2] + [P.enc_tlv(8, b'KEY'), P.enc_tlv(8, rng.choice([b'root', b'backup', b'\x0f']))]
+        if rng.random() < 0.3:
+            ident += [P.enc_tlv(8, b'self'), P.enc_tlv(T_VERSION, P.enc_nni(rng.getrandbits(20)))]
     comps = ident + [P.enc_tlv(8, b'KEY'), kid]
     return {'comps': [c.hex() for c in comps], 'form': rng.choice(['formal', 'formal', 'bytes', 'mixed', 'str'])}
 
@@ -385,7 +397,9 @@ def gen_cases(tier, seed):
                             rng.choice(DURATIONS + [rng.randint(1, 631152000)])))
     # E. self_sign / sign_req (issuer == subject key), real clock and patched clocks
     clocks = [None, calendar.timegm((2027, 12, 31, 23, 59, 59, 0, 0, 0)), calendar.timegm((2028, 2, 29, 12, 0, 0, 0, 0, 0)),
-              calendar.timegm((2024, 2, 29, 0, 0, 0, 0, 0, 0)), calendar.timegm((2030, 1, 1, 0, 0, 0, 0, 0, 0))]
+              calendar.timegm((2024, 2, 29, 0, 0, 0, 0, 0, 0)), calendar.timegm((2030, 1, 1, 0, 0, 0, 0, 0, 0)),
+              # 29 February of a year whose 20th successor is NOT a leap year (2100, 2200 are not)
+              calendar.timegm((2080, 2, 29, 12, 0, 0, 0, 0, 0)), calendar.timegm((2180, 2, 29, 23, 59, 59, 0, 0, 0))]
     for fn in ('self_sign', 'sign_req'):
         for kind in ISSUERS:
             for clock in clocks:
